@@ -90,7 +90,7 @@ def fheParts : List Stmt := [fhe0, fhe1, fhe2, fhe3, fhe4, fhe5, fhe6, fhe7, fhe
 theorem parse_fhe : parseBody VxfwBodyExpected.focusHandleEvent = seqOf fheParts := by decide +kernel
 
 local macro "vs" "[" ts:Lean.Parser.Tactic.simpLemma,* "]" : tactic =>
-  `(tactic| simp [exec, atom, evBool, evInt, find, recv, bindId, doCall, phaseOf, seqOf, $ts,*])
+  `(tactic| simp [exec, atom, evBool, evInt, evList, find, recv, bindId, doCall, phaseOf, seqOf, $ts,*])
 
 def ctlOf : Outcome → Ctl
   | .next => .norm
@@ -288,7 +288,7 @@ theorem fhe_exec (e : EOracle) (fuel : Nat) (s : St) (ev : Ev) (lf : Nat) (hlf :
   obtain ⟨vm2, hc, hc1, hc2, hc3⟩ := hcap
   have hex : exec e fuel ev (.rangeOver "_" "v3" (.var "v2") capBody) lf ⟨{ s with consume := false }, [], [], [], [], [("v2", s.path)]⟩ =
       rangeIds "v3" (exec e fuel ev capBody lf) s.path ⟨{ s with consume := false }, [], [], [], [], [("v2", s.path)]⟩ := by
-    simp [exec, find]
+    simp [exec, find, evList]
   rw [hex, hc]
   simp only [] at hc1 hc2 hc3
   generalize eCapturePhase e fuel ev s.path { s with consume := false } = r at hc hc1 ⊢
